@@ -42,31 +42,35 @@ Definition exc_id (j : nat) (it : item) : Z := (Z.of_nat j + 1) * 1000 + fst it.
 
 Inductive ptask := TGen | TL (j : nat) (it : item) | TU (j : nat) (it : item).
 
-Inductive mpc := MStart | MExec (g : Z) | MCwLoad | MCwFutex (cur : Z) | MBlocked | MWoken | MWaitStage (j : nat) | MCtsWait (dtor : bool).
-Inductive gpc := GExc | GCall | GDone | GNStore | GNWake.
-Inductive spc := SOinc | SEnq | SSub | SDeq | SAdd.
-Inductive tpc := TUExc | TBody | TCbDeq | TCbAdd | TNext | TRGuard | TOGuard | TCatchCas (e : Z) | TCancel.
-Inductive wpc := WOLoad | WExc | WDDeq | WDDec | WDeq | WSub | WAdd | WExc2 | WDec2.
+Inductive spc := SOinc | SEnq | SSub | SDeq | SAdd.                 (* LimitGatedScheduler::schedule *)
+Inductive wpc := WOLoad | WExc | WDDeq | WDDec | WDeq | WSub | WAdd | WExc2 | WDec2.   (* LimitGatedScheduler::wait *)
+Inductive mpc := MStart | MExec (g : Z) | MCwLoad | MCwFutex (cur : Z) | MBlocked | MWoken
+               | MWait (j : nat) (pc : wpc) (held : item)           (* wait() of stage j (only the caller runs it) *)
+               | MCtsWait (dtor : bool) | MCtsHelp (dtor : bool).   (* ConcurrentTaskSet::wait: the load / its inner loop *)
+Inductive gpc := GExc | GCall | GSched (it : item) (pc : spc) | GDone | GNStore | GNWake.
+Inductive tpc := TUExc | TBody | TCbDeq | TCbAdd | TNext | TSched (pc : spc) | TRGuard | TOGuard | TCatchCas (e : Z) | TCancel.
 Inductive ppc := PRun | PFin | PCatchCas (e : Z) | PCancel.
 
+(* schedule() and wait() have exactly one kind of caller each, so their program counters are part of the caller's frame:
+   GSched = the generator instance inside pipeNext_.execute(item) -> schedule of stage 0; TSched = a stage task inside
+   pipeNext_.execute(result) -> schedule of the next stage; MWait = the caller of pipeline() inside wait() of stage j *)
 Inductive frame :=
 | FMain (pc : mpc)                                              (* dispenso::pipeline on the calling thread *)
 | FWorker (started : bool)                                      (* a pool worker's loop *)
 | FGen (pc : gpc)                                               (* one generator instance *)
-| FSched (j : nat) (it : item) (pc : spc)                       (* LimitGatedScheduler::schedule of stage j *)
 | FTask (lim : bool) (j : nat) (it : item) (pc : tpc) (armed : bool)   (* the queued (lim) / directly scheduled (unlimited) stage task *)
-| FWait (j : nat) (pc : wpc) (held : item)                      (* LimitGatedScheduler::wait of stage j *)
 | FPool (tk : ptask) (pc : ppc)                                 (* packageTask wrapper + ThreadPool::executeNext *)
-| FInline                                                       (* an InlineDepthGuard scope *)
-| FHelp.                                                        (* the inner loop of ConcurrentTaskSet::wait *)
+| FInline.                                                      (* an InlineDepthGuard scope *)
 
 Record gate := GT { g_res : Z; g_out : Z; g_q : list (nat * item); g_prods : list nat }.
 Record thread := TH { stack : list frame; depth : Z; unw : option Z; is_pool : bool }.
 Record event := EV { e_tid : Z; e_kind : Z; e_j : Z; e_tag : Z; e_val : Z }.
 (* kinds: 1 enter 2 exit 3 throw 4 generated 5 generator throws 6 generator ends (these six are also logged by the harness);
    ghost: 7 discarded by cleanupNotRun, 8 limited task skipped by the cancelled wrapper (payload never destroyed),
-   9 pipeline returned, 10 exception escaped from execute(), 11 left in a gate queue at destruction (payload never destroyed),
-   12 unlimited task skipped (payload destroyed with the wrapper), 13 generator instance skipped *)
+   9 pipeline returned (also logged by the harness), 11 left in a gate queue at destruction (payload never destroyed),
+   12 unlimited task skipped by the cancelled wrapper (payload destroyed with the wrapper), 13 generator instance skipped,
+   14 a generator call begins (also logged by the harness), 15 unlimited task did not run its stage because hasException(),
+   16 exception captured by trySetCurrentException (tag = exception id) *)
 
 Record shared := SH {
   gates : list gate; bag : list (nat * ptask); bprods : list nat; pout : Z;
@@ -103,3 +107,412 @@ Definition upd_gate (s : shared) (j : nat) (f : gate -> gate) : shared := w_gate
 Definition g_w_res (d : Z) (g : gate) := GT (g_res g + d) (g_out g) (g_q g) (g_prods g).
 Definition g_w_out (d : Z) (g : gate) := GT (g_res g) (g_out g + d) (g_q g) (g_prods g).
 Definition g_w_q (q : list (nat * item)) (p : list nat) (g : gate) := GT (g_res g) (g_out g) q p.
+
+(* ---------- the two moodycamel queues (one per gate, one central pool queue) ----------
+   entries carry the id of the producing thread.  Threshold mode reproduces try_dequeue without a token on a quiescent queue:
+   among the first three non-empty producers (most recently created first) the one with the most elements, first-in first-out
+   inside a producer.  Oracle mode: the next integer c picks entry (c-1) mod n, c = 0 (or no integer left) is a miss. *)
+Fixpoint count_prod {A} (p : nat) (q : list (nat * A)) : nat :=
+  match q with [] => O | (p', _) :: r => if Nat.eqb p p' then S (count_prod p r) else count_prod p r end.
+Fixpoint mc_scan {A} (prods : list nat) (q : list (nat * A)) (seen : nat) (best : option (nat * nat)) : option nat :=
+  match prods with
+  | [] => option_map fst best
+  | p :: r =>
+      if Nat.leb 3 seen then option_map fst best else
+      let sz := count_prod p q in
+      if Nat.eqb sz 0 then mc_scan r q seen best
+      else mc_scan r q (S seen) (match best with
+                                  | Some (_, bs) => if Nat.ltb bs sz then Some (p, sz) else best
+                                  | None => Some (p, sz) end)
+  end.
+Fixpoint first_idx {A} (p : nat) (q : list (nat * A)) (i : nat) : option nat :=
+  match q with [] => None | (p', _) :: r => if Nat.eqb p p' then Some i else first_idx p r (S i) end.
+Fixpoint remove_at {A} (n : nat) (l : list A) : list A :=
+  match l, n with [], _ => [] | _ :: r, O => r | x :: r, S m => x :: remove_at m r end.
+
+Definition pick_idx {A} (oracle : bool) (prods : list nat) (q : list (nat * A)) (ch : list Z) : option nat * list Z :=
+  if oracle then
+    match ch with
+    | [] => (None, [])
+    | c :: r => (if (c <=? 0) || Nat.eqb (length q) 0 then None else Some (Z.to_nat ((c - 1) mod Z.of_nat (length q))), r)
+    end
+  else (match mc_scan prods q 0 None with Some p => first_idx p q 0 | None => None end, ch).
+
+Definition deq {A} (oracle : bool) (prods : list nat) (q : list (nat * A)) (ch : list Z) : option (A * list (nat * A)) * list Z :=
+  let '(oi, ch') := pick_idx oracle prods q ch in
+  match oi with
+  | Some i => match nth_error q i with Some (_, x) => (Some (x, remove_at i q), ch') | None => (None, ch') end
+  | None => (None, ch')
+  end.
+Definition enq_prods (t : nat) (prods : list nat) : list nat := if existsb (Nat.eqb t) prods then prods else t :: prods.
+
+(* ---------- thread-local helpers ---------- *)
+Definition w_stack (th : thread) (st : list frame) : thread := TH st (depth th) (unw th) (is_pool th).
+Definition w_depth (th : thread) (d : Z) : thread := TH (stack th) d (unw th) (is_pool th).
+Definition w_unw (th : thread) (u : option Z) : thread := TH (stack th) (depth th) u (is_pool th).
+Definition push (th : thread) (f : frame) : thread := w_stack th (f :: stack th).
+Definition can_inline (th : thread) : bool := depth th <? 32.            (* PerPoolPerThreadInfo::canInlineSchedule *)
+Definition ev (t : nat) (k : Z) (j : Z) (it : item) : event := EV (Z.of_nat t) k j (fst it) (snd it).
+Definition dummy : item := (0, 0).
+
+(* the frame that runs a task's body; entering a limited task's lambda runs straight into the user's stage function *)
+Definition body_frame (t : nat) (s : shared) (tk : ptask) : shared * frame :=
+  match tk with
+  | TGen => (s, FGen GExc)
+  | TL j it => (add_log s (ev t 1 (Z.of_nat j) it), FTask true j it TBody true)
+  | TU j it => (s, FTask false j it TUExc false)
+  end.
+
+(* ConcurrentTaskSet::schedule (TaskCost::kHeavy, default multiplier 4) decides between running the functor inline and queuing *)
+Definition inline_decision (c : cfg) (s : shared) (th : thread) (force : bool) (ch : list Z) : bool * list Z :=
+  if force then (false, ch) else
+  if c_oracle c then
+    match ch with [] => (false, []) | x :: r => (Z.odd x && can_inline th, r) end
+  else
+    let thr := Z.max (c_npool c + 1) ((4 * c_npool c) / 2) in
+    if (thr <? pout s) && negb (canceled s) && can_inline th then (true, ch)
+    else if (is_pool th && ((3 * c_npool c) / 2 <? pout s)) || (c_plf c <? pout s) then (can_inline th, ch)
+    else (false, ch).
+
+(* tasks_.schedule(task): th's stack is already the continuation of the caller *)
+Definition dispatch (c : cfg) (t : nat) (s : shared) (th : thread) (tk : ptask) (force : bool) (ch : list Z) : shared * thread * list Z :=
+  let '(inln, ch') := inline_decision c s th force ch in
+  if inln then
+    let '(s1, fr) := body_frame t s tk in
+    (s1, w_depth (w_stack th (fr :: FInline :: stack th)) (depth th + 1), ch')
+  else (w_pout (w_bag s (bag s ++ [(t, tk)]) (enq_prods t (bprods s))) (pout s + 1), th, ch').
+
+(* tasks_.tryExecuteNext() / the pop of a worker: th's stack is already the continuation *)
+Definition try_exec (c : cfg) (s : shared) (th : thread) (ch : list Z) : shared * thread * list Z :=
+  let '(r, ch') := deq (c_oracle c) (bprods s) (bag s) ch in
+  match r with
+  | Some (tk, b') => (w_bag s b' (bprods s), push th (FPool tk PRun), ch')
+  | None => (s, th, ch')
+  end.
+
+Definition gate_deq (c : cfg) (s : shared) (j : nat) (ch : list Z) : option (item * shared) * list Z :=
+  let g := gate_at s j in
+  let '(r, ch') := deq (c_oracle c) (g_prods g) (g_q g) ch in
+  match r with
+  | Some (x, q') => (Some (x, upd_gate s j (g_w_q q' (g_prods g))), ch')
+  | None => (None, ch')
+  end.
+Definition gate_enq (s : shared) (j : nat) (t : nat) (it : item) : shared :=
+  upd_gate s j (fun g => g_w_q (g_q g ++ [(t, it)]) (enq_prods t (g_prods g)) g).
+
+(* trySetCurrentException's compare-exchange *)
+Definition try_set (t : nat) (s : shared) (e : Z) : shared * bool :=
+  match exc s with None => (add_log (w_exc s (Some e)) (EV (Z.of_nat t) 16 (-1) e 0), true) | Some _ => (s, false) end.
+Definition has_exc (s : shared) : bool := match exc s with Some _ => true | None => false end.
+
+(* destruction of the pipes: whatever is still in a gate queue is dropped without cleanupNotRun *)
+Fixpoint strand_q (t : nat) (j : nat) (q : list (nat * item)) (s : shared) : shared :=
+  match q with [] => s | (_, it) :: r => strand_q t j r (add_log s (ev t 11 (Z.of_nat j) it)) end.
+Fixpoint strand_gates (t : nat) (j : nat) (gs : list gate) (s : shared) : shared :=
+  match gs with [] => s | g :: r => strand_gates t (S j) r (strand_q t j (g_q g) s) end.
+Definition destroy_pipes (t : nat) (s : shared) : shared :=
+  w_gates (strand_gates t 0 (gates s) s) (map (fun g => g_w_q [] (g_prods g) g) (gates s)).
+
+(* site ids = positions in props/pipe_common.py SITES; -1 = silent transition *)
+Definition silent : Z := -1.
+
+
+(* result of one frame transition: new shared state, new thread, remaining oracle, site, "wake every futex waiter" *)
+Definition R := option (shared * thread * list Z * Z * bool).
+Definition ok (s : shared) (th : thread) (ch : list Z) (site : Z) : R := Some (s, th, ch, site, false).
+Definition zj (j : nat) : Z := Z.of_nat j.
+
+Section Frames.
+  Variable c : cfg.
+  Variable t : nat.
+
+  Definition first_wait : mpc := if Nat.ltb 0 (nstages c) then MWait 0 WOLoad dummy else MCtsWait false.
+  Definition after_wait (j : nat) : mpc := if Nat.ltb (S j) (nstages c) then MWait (S j) WOLoad dummy else MCtsWait false.
+
+  (* ---- LimitGatedScheduler::wait of stage j, both loops (the sites of the unlimited loop carry the prefix pipe.uwait) *)
+  Definition step_wait (s : shared) (th : thread) (j : nat) (pc : wpc) (held : item) (r : list frame) (ch : list Z) : R :=
+    let goto p h := w_stack th (FMain (MWait j p h) :: r) in
+    let leave := w_stack th (FMain (after_wait j) :: r) in
+    let unl := unlimited c j in
+    let sid (a b : Z) := if unl then b else a in
+    match pc with
+    | WOLoad => if g_out (gate_at s j) =? 0 then ok s leave ch (sid 24 33) else ok s (goto WExc held) ch (sid 24 33)
+    | WExc =>
+        if has_exc s then (if unl then ok s leave ch 34 else ok s (goto WDDeq held) ch 25)
+        else ok s (goto WDeq held) ch (sid 25 34)
+    | WDDeq =>
+        let '(res, ch1) := gate_deq c s j ch in
+        match res with
+        | Some (x, s1) => ok s1 (goto WDDec x) ch1 26
+        | None => ok s leave ch1 26
+        end
+    | WDDec => ok (add_log (upd_gate s j (g_w_out (-1))) (ev t 7 (zj j) held)) (goto WDDeq dummy) ch 27
+    | WDeq =>
+        let '(res, ch1) := gate_deq c s j ch in
+        match res with
+        | Some (x, s1) => ok s1 (goto WSub x) ch1 (sid 28 35)
+        | None => let '(s2, th2, ch2) := try_exec c s (goto WOLoad dummy) ch1 in ok s2 th2 ch2 (sid 28 35)
+        end
+    | WSub =>
+        let s1 := upd_gate s j (g_w_res (-1)) in
+        if 0 <? g_res (gate_at s j) then
+          let '(s2, th2, ch2) := dispatch c t s1 (goto WOLoad dummy) (TL j held) false ch in ok s2 th2 ch2 (sid 29 36)
+        else ok s1 (goto WAdd held) ch (sid 29 36)
+    | WAdd =>
+        let s1 := upd_gate s j (g_w_res 1) in
+        if unl then let '(s2, th2, ch2) := try_exec c s1 (goto WSub held) ch in ok s2 th2 ch2 37
+        else ok s1 (goto WExc2 held) ch 30
+    | WExc2 =>
+        if has_exc s then ok s (goto WDec2 held) ch 31
+        else let '(s2, th2, ch2) := try_exec c s (goto WSub held) ch in ok s2 th2 ch2 31
+    | WDec2 => ok (add_log (upd_gate s j (g_w_out (-1))) (ev t 7 (zj j) held)) (goto WOLoad dummy) ch 32
+    end.
+
+  (* ---- dispenso::pipeline(): makePipes, execute() (one generator instance per slot), wait(), destructors *)
+  Definition step_main (s : shared) (th : thread) (pc : mpc) (r : list frame) (ch : list Z) : R :=
+    let goto p := w_stack th (FMain p :: r) in
+    match pc with
+    | MStart => ok s (goto (MExec 0)) ch 0
+    | MExec g =>
+        if g <? ninst c then
+          let '(s1, th1, ch1) := dispatch c t s (goto (MExec (g + 1))) TGen false ch in ok s1 th1 ch1 silent
+        else ok s (goto MCwLoad) ch silent
+    | MCwLoad => if compl s =? 0 then ok s (goto first_wait) ch 1 else ok s (goto (MCwFutex (compl s))) ch 1
+    | MCwFutex cur => if compl s =? cur then ok s (goto MBlocked) ch 2 else ok s (goto MCwLoad) ch 2
+    | MBlocked => None
+    | MWoken => ok s (goto MCwLoad) ch 3
+    | MWait j pc held => step_wait s th j pc held r ch
+    | MCtsWait dtor =>
+        if pout s =? 0 then
+          if dtor then ok (add_log (w_done s true) (ev t 9 (-1) dummy)) (w_stack th r) ch 4
+          else
+            let s1 := match exc s with
+                      | Some e => w_exc (w_result s (Some e)) None          (* testAndResetException rethrows *)
+                      | None => w_result s (Some (-1)) end in
+            ok (destroy_pipes t s1) (goto (MCtsWait true)) ch 4
+        else ok s (goto (MCtsHelp dtor)) ch 4
+    | MCtsHelp dtor =>                                                       (* while (pool_.tryExecuteNext()) {} *)
+        let '(res, ch1) := deq (c_oracle c) (bprods s) (bag s) ch in
+        match res with
+        | Some (tk, b') => ok (w_bag s b' (bprods s)) (push th (FPool tk PRun)) ch1 silent
+        | None => ok s (goto (MCtsWait dtor)) ch1 silent
+        end
+    end.
+
+  Definition step_worker (s : shared) (th : thread) (started : bool) (r : list frame) (ch : list Z) : R :=
+    if started then
+      if done s then ok s (w_stack th r) ch 5
+      else let '(s1, th1, ch1) := try_exec c s th ch in ok s1 th1 ch1 5
+    else ok s (w_stack th (FWorker true :: r)) ch 0.
+
+  Definition skip_event (tk : ptask) : event :=
+    match tk with TL j it => ev t 8 (zj j) it | TU j it => ev t 12 (zj j) it | TGen => ev t 13 (-1) dummy end.
+
+  (* ---- the wrapper made by TaskSetBase::packageTask, run by ThreadPool::executeNext *)
+  Definition step_pool (s : shared) (th : thread) (tk : ptask) (pc : ppc) (r : list frame) (ch : list Z) : R :=
+    let goto p := w_stack th (FPool tk p :: r) in
+    match pc with
+    | PRun =>
+        if canceled s then ok (add_log s (skip_event tk)) (goto PFin) ch silent
+        else let '(s1, fr) := body_frame t s tk in ok s1 (w_stack th (fr :: FPool tk PFin :: r)) ch silent
+    | PFin => ok (w_pout s (pout s - 1)) (w_stack th r) ch silent
+    | PCatchCas e => let '(s1, won) := try_set t s e in ok s1 (goto (if won then PCancel else PFin)) ch 6
+    | PCancel => ok (w_canceled s true) (goto PFin) ch 7
+    end.
+
+  (* ---- LimitGatedScheduler::schedule of stage j for item it, called from the frame [mk pc]; [retf] = the caller after the call *)
+  Definition step_sched (s : shared) (th : thread) (j : nat) (it : item) (pc : spc) (mk : spc -> frame) (retf : frame)
+             (r : list frame) (ch : list Z) : R :=
+    let goto p := w_stack th (mk p :: r) in
+    let leave := w_stack th (retf :: r) in
+    match pc with
+    | SOinc =>
+        let s1 := upd_gate s j (g_w_out 1) in
+        if unlimited c j then
+          let '(s2, th2, ch2) := dispatch c t s1 leave (TU j it) false ch in ok s2 th2 ch2 13
+        else ok s1 (goto SEnq) ch 13
+    | SEnq => ok (gate_enq s j t it) (goto SSub) ch 14
+    | SSub => ok (upd_gate s j (g_w_res (-1))) (goto (if 0 <? g_res (gate_at s j) then SDeq else SAdd)) ch 15
+    | SDeq =>
+        let '(res, ch1) := gate_deq c s j ch in
+        match res with
+        | Some (x, s1) => let '(s2, th2, ch2) := dispatch c t s1 (goto SSub) (TL j x) false ch1 in ok s2 th2 ch2 16
+        | None => ok s (goto SAdd) ch1 16
+        end
+    | SAdd => ok (upd_gate s j (g_w_res 1)) leave ch 17
+    end.
+
+  (* ---- one generator instance (Pipe<kGenerator>::execute's lambda with its CompletionGuard) *)
+  Definition step_gen (s : shared) (th : thread) (pc : gpc) (r : list frame) (ch : list Z) : R :=
+    let goto p := w_stack th (FGen p :: r) in
+    match pc with
+    | GExc => if has_exc s then ok s (goto GDone) ch 8 else ok (add_log s (ev t 14 (-1) dummy)) (goto GCall) ch 8
+    | GCall =>
+        let k := gnext s in
+        let s1 := w_gnext s (k + 1) in
+        if k =? c_gthrow c then ok (add_log s1 (ev t 5 (-1) (k, 0))) (w_unw (goto GDone) (Some k)) ch 9
+        else if c_nitems c <=? k then ok (add_log s1 (ev t 6 (-1) (k, 0))) (goto GDone) ch 9
+        else ok (add_log s1 (ev t 4 (-1) (k, k))) (goto (GSched (k, k) SOinc)) ch 9
+    | GSched it pc => step_sched s th 0 it pc (fun p => FGen (GSched it p)) (FGen GExc) r ch
+    | GDone =>
+        let s1 := w_compl s (compl s - 1) in
+        if compl s =? 1 then ok s1 (goto GNStore) ch 10 else ok s1 (w_stack th r) ch 10
+    | GNStore => ok (w_compl s 0) (goto GNWake) ch 11
+    | GNWake => Some (s, w_stack th r, ch, 12, true)
+    end.
+
+  (* ---- the stage task: lim = the lambda queued by schedule() (with OutstandingGuard, ResourceGuard, try/catch, completion
+          callback); not lim = the lambda scheduled directly by an unlimited gate *)
+  Definition step_task (s : shared) (th : thread) (lim : bool) (j : nat) (it : item) (pc : tpc) (armed : bool) (r : list frame) (ch : list Z) : R :=
+    let goto p a := w_stack th (FTask lim j it p a :: r) in
+    let after_catch := if armed then TRGuard else TOGuard in
+    match pc with
+    | TUExc =>
+        if has_exc s then ok (add_log s (ev t 15 (zj j) it)) (goto TOGuard armed) ch 18
+        else ok (add_log s (ev t 1 (zj j) it)) (goto TBody armed) ch 18
+    | TBody =>
+        if throws_at c j it then ok (add_log s (ev t 3 (zj j) it)) (w_unw (goto TBody armed) (Some (exc_id j it))) ch 19
+        else ok (add_log s (ev t 2 (zj j) it)) (goto (if lim then TCbDeq else TNext) false) ch 19
+    | TCbDeq =>
+        let '(res, ch1) := gate_deq c s j ch in
+        match res with
+        | Some (x, s1) =>
+            if serial c j && can_inline th then
+              let '(s2, fr) := body_frame t s1 (TL j x) in
+              ok s2 (w_depth (w_stack th (fr :: FInline :: FTask lim j it TNext armed :: r)) (depth th + 1)) ch1 20
+            else
+              let '(s2, th2, ch2) := dispatch c t s1 (goto TNext armed) (TL j x) (serial c j) ch1 in ok s2 th2 ch2 20
+        | None => ok s (goto TCbAdd armed) ch1 20
+        end
+    | TCbAdd => ok (upd_gate s j (g_w_res 1)) (goto TNext armed) ch 21
+    | TNext =>
+        if drops_at c j it || Nat.leb (nstages c) (S j) then ok s (goto TOGuard armed) ch silent
+        else ok s (goto (TSched SOinc) armed) ch silent
+    | TSched pc =>
+        step_sched s th (S j) (fst it, sval j (snd it)) pc (fun p => FTask lim j it (TSched p) armed) (FTask lim j it TOGuard armed) r ch
+    | TRGuard => ok (upd_gate s j (g_w_res 1)) (goto TOGuard false) ch 22
+    | TOGuard => ok (upd_gate s j (g_w_out (-1))) (w_stack th r) ch 23
+    | TCatchCas e => let '(s1, won) := try_set t s e in ok s1 (goto (if won then TCancel else after_catch) armed) ch 6
+    | TCancel => ok (w_canceled s true) (goto after_catch armed) ch 7
+    end.
+
+  Definition step_frame (s : shared) (th : thread) (f : frame) (r : list frame) (ch : list Z) : R :=
+    match f with
+    | FMain pc => step_main s th pc r ch
+    | FWorker b => step_worker s th b r ch
+    | FGen pc => step_gen s th pc r ch
+    | FTask lim j it pc a => step_task s th lim j it pc a r ch
+    | FPool tk pc => step_pool s th tk pc r ch
+    | FInline => ok s (w_depth (w_stack th r) (depth th - 1)) ch silent
+    end.
+
+  (* ---- stack unwinding with exception e: guards run (they are ordinary visible steps), handlers catch.
+          An exception reaches a frame only at the program points where it waits for a callee that can throw: the stage body
+          (TBody), the return from pipeNext_.execute when the next stage is unlimited and ran inline (TOGuard / GExc: the frame
+          already holds its continuation), the wrapper after its body (PFin). *)
+  Definition step_unwind (s : shared) (th : thread) (e : Z) (f : frame) (r : list frame) (ch : list Z) : R :=
+    match f with
+    | FInline => ok s (w_depth (w_stack th r) (depth th - 1)) ch silent
+    | FTask true j it TBody a => ok s (w_unw (w_stack th (FTask true j it (TCatchCas e) a :: r)) None) ch silent
+    | FTask true j it TOGuard a => ok s (w_unw (w_stack th (FTask true j it (TCatchCas e) a :: r)) None) ch silent
+    | FTask false j it TBody a => ok s (w_stack th (FTask false j it TOGuard a :: r)) ch silent
+    | FTask false j it TOGuard a => step_task s th false j it TOGuard a r ch
+    | FGen GExc => ok s (w_stack th (FGen GDone :: r)) ch silent
+    | FGen GDone => step_gen s th GDone r ch
+    | FGen GNStore => step_gen s th GNStore r ch
+    | FGen GNWake => step_gen s th GNWake r ch
+    | FPool tk PFin => ok s (w_unw (w_stack th (FPool tk (PCatchCas e) :: r)) None) ch silent
+    | _ =>
+        (* FMain (MExec _): a generator instance ran inline inside execute() and the exception leaves pipeline() through
+           execute(): wait() is skipped and the Pipe objects are destroyed while queued tasks may still reference them (undefined
+           behaviour in the real code).  The model stops here; such states are characterised by [escaping] below.
+           Elsewhere FMain / FWorker only call wrapped tasks, which catch everything; the other program points never have a
+           throwing callee above them. *)
+        None
+    end.
+
+  Definition mstep_thread (s : shared) (th : thread) (ch : list Z) : R :=
+    match stack th with
+    | [] => None
+    | f :: r => match unw th with Some e => step_unwind s th e f r ch | None => step_frame s th f r ch end
+    end.
+End Frames.
+
+(* 0 finished, 1 at a visible site, 2 about to make a silent transition, 3 blocked in the futex *)
+Definition frame_kind (f : frame) : Z :=
+  match f with
+  | FMain MBlocked => 3
+  | FMain (MExec _) | FMain (MCtsHelp _) => 2
+  | FMain _ => 1
+  | FTask _ _ _ TNext _ => 2
+  | FPool _ PRun | FPool _ PFin => 2
+  | FInline => 2
+  | _ => 1
+  end.
+Definition th_kind (th : thread) : Z :=
+  match stack th with
+  | [] => 0
+  | f :: _ =>
+      match unw th with
+      | None => frame_kind f
+      | Some _ => match f with
+                  | FTask false _ _ TOGuard _ => 1
+                  | FGen GDone | FGen GNStore | FGen GNWake => 1
+                  | _ => 2 end
+      end
+  end.
+
+(* the caller is unwinding out of execute() *)
+Definition escaping (th : thread) : bool :=
+  match unw th, stack th with Some _, FMain (MExec _) :: _ => true | _, _ => false end.
+
+Definition wake_all (ths : list thread) : list thread :=
+  map (fun th => match stack th with FMain MBlocked :: r => w_stack th (FMain MWoken :: r) | _ => th end) ths.
+
+Definition mstep (c : cfg) (s : state) (t : nat) (ch : list Z) : option (state * list Z * Z) :=
+  match nth_error (threads s) t with
+  | None => None
+  | Some th =>
+      match mstep_thread c t (sh s) th ch with
+      | None => None
+      | Some (s1, th1, ch1, site, wake) =>
+          Some (ST s1 (set_nth (if wake then wake_all (threads s) else threads s) t th1), ch1, site)
+      end
+  end.
+
+Fixpoint settle (c : cfg) (fuel : nat) (s : state) (t : nat) (ch : list Z) : option (state * list Z) :=
+  match nth_error (threads s) t with
+  | None => None
+  | Some th =>
+      if th_kind th =? 2 then
+        match fuel with
+        | O => None
+        | S f => match mstep c s t ch with Some (s1, ch1, _) => settle c f s1 t ch1 | None => None end
+        end
+      else Some (s, ch)
+  end.
+
+(* what one grant of the cooperative scheduler executes *)
+Definition step (c : cfg) (s : state) (t : nat) (ch : list Z) : option (state * list Z * Z) :=
+  match nth_error (threads s) t with
+  | None => None
+  | Some th =>
+      if th_kind th =? 1 then
+        match mstep c s t ch with
+        | Some (s1, ch1, site) => match settle c 1000 s1 t ch1 with Some (s2, ch2) => Some (s2, ch2, site) | None => None end
+        | None => None
+        end
+      else None
+  end.
+
+Fixpoint tids_where (f : thread -> bool) (ths : list thread) (i : nat) : list nat :=
+  match ths with [] => [] | th :: r => if f th then i :: tids_where f r (S i) else tids_where f r (S i) end.
+Definition cands (s : state) : list nat := tids_where (fun th => th_kind th =? 1) (threads s) 0.
+Definition finished (s : state) : bool := forallb (fun th => th_kind th =? 0) (threads s).
+
+Definition init_gate (sc : stage_cfg) : gate := GT (lim_of sc) 0 [] [].
+Definition init (c : cfg) : state :=
+  ST (SH (map init_gate (c_stages c)) [] [] 0 None false (ninst c) 0 false None [])
+     (TH [FMain MStart] 0 None false :: map (fun w => TH [FWorker false] (snd w) None (fst w)) (c_workers c)).
+
+Definition run_pipe (fuel : nat) (c : cfg) (sched : list Z) := run (step c) cands finished fuel (init c) sched [].
